@@ -83,10 +83,28 @@ func (e *Enc) loopEnv(li *loopInfo, st *State) *Env {
 	return env
 }
 
+// evalGoal evaluates a clause that is to be proved. The result is the plain formula (bounded universals stay
+// quantifiers); a second version with the outermost universals skolemised is remembered under it, and oblige builds an
+// alternative query from that one plus explicit instances of the assumed universals (see instancesFor). Some goals are
+// decided quickly only in the first form, others only in the second; both are raced.
 func (e *Enc) evalGoal(x ast.Expr, env *Env) string {
 	n := *env
 	n.pol = 1
-	return e.evalBool(x, &n)
+	save := e.noSkolem
+	e.noSkolem = true
+	plain := e.evalBool(x, &n)
+	e.noSkolem = save
+	if !e.noSkolem && e.pass == 2 && os.Getenv("GOVC_NOSKOLEM") == "" {
+		n2 := *env
+		n2.pol = 1
+		nerr := len(e.errs)
+		sk := e.evalBool(x, &n2)
+		e.errs = e.errs[:nerr]
+		if sk != plain && skolemRe.MatchString(sk) {
+			e.skolemOf[plain] = sk
+		}
+	}
+	return plain
 }
 
 func (e *Enc) evalHyp(x ast.Expr, env *Env) string {
@@ -971,7 +989,7 @@ func (e *Enc) evalCall(n *ast.CallExpr, env *Env) Val {
 			}
 			e.sawHypAll = true
 		}
-		if len(env.quants) == 0 && env.instAt == "" && !e.noSkolem && ((fname == "all" && env.pol > 0) || (fname == "any" && env.pol < 0)) {
+		if len(env.quants) == 0 && env.instAt == "" && !e.noSkolem && os.Getenv("GOVC_NOSKOLEM") == "" && ((fname == "all" && env.pol > 0) || (fname == "any" && env.pol < 0)) {
 			// a universal goal (existential hypothesis) is skolemised here, so that the assumed universals can be
 			// instantiated at the skolem constant (and at the bounds) explicitly
 			e.n++
@@ -1130,6 +1148,26 @@ func (e *Enc) evalCall(n *ast.CallExpr, env *Env) Val {
 		if sf, ok := e.CS.Specs[fname]; ok {
 			return e.evalSpec(sf, n, env)
 		}
+		// a call of a pure function of the package under contract: f(args)
+		if id, ok := n.Fun.(*ast.Ident); ok && env.pkg != nil {
+			if fn, ok := env.pkg.Pkg.Scope().Lookup(id.Name).(*types.Func); ok {
+				key := env.pkg.Pkg.Path() + "." + id.Name
+				sig := fn.Type().(*types.Signature)
+				if ct := e.contractFor(key); ct != nil && ct.Pure && sig.Results().Len() == 1 && sig.Recv() == nil {
+					var args []Val
+					for _, a := range n.Args {
+						v := e.evalExpr(a, env)
+						if v.Bad {
+							return Val{Bad: true}
+						}
+						args = append(args, v)
+					}
+					if v, ok := e.pureUF(key, sig.Results().At(0).Type(), args, env.st); ok {
+						return v
+					}
+				}
+			}
+		}
 		if t := e.resolveType(env.pkg, fname); t != nil && len(n.Args) == 1 {
 			a := e.evalExpr(n.Args[0], env)
 			if a.Bad {
@@ -1147,7 +1185,83 @@ func (e *Enc) evalCall(n *ast.CallExpr, env *Env) Val {
 			return a
 		}
 	}
+	// a call of a pure method of the program: x.M(args) where the method (or the interface method) has a pure contract
+	if sel, ok := n.Fun.(*ast.SelectorExpr); ok {
+		if v, ok := e.evalPureMethodCall(sel, n, env); ok {
+			return v
+		}
+	}
 	return e.bad("unknown function in contract", n)
+}
+
+// evalPureMethodCall evaluates recv.M(args) in a contract expression as the same uninterpreted function that a call
+// of the pure method yields in the code (see pureUF), in the state of the environment.
+func (e *Enc) evalPureMethodCall(sel *ast.SelectorExpr, n *ast.CallExpr, env *Env) (Val, bool) {
+	recv := e.evalExpr(sel.X, env)
+	if recv.Bad || recv.T == nil {
+		return Val{}, false
+	}
+	t := types.Unalias(recv.T)
+	var key string
+	var sig *types.Signature
+	if nt, ok := t.(*types.Named); ok {
+		if it, ok := nt.Underlying().(*types.Interface); ok {
+			for i := 0; i < it.NumMethods(); i++ {
+				if it.Method(i).Name() == sel.Sel.Name {
+					sig = it.Method(i).Type().(*types.Signature)
+				}
+			}
+			if sig == nil {
+				return Val{}, false
+			}
+			pkg := ""
+			if nt.Obj().Pkg() != nil {
+				pkg = nt.Obj().Pkg().Path() + "."
+			}
+			key = pkg + nt.Obj().Name() + "." + sel.Sel.Name
+		}
+	}
+	if key == "" {
+		obj, _, _ := types.LookupFieldOrMethod(t, true, env.pkg.Pkg, sel.Sel.Name)
+		fn, ok := obj.(*types.Func)
+		if !ok {
+			return Val{}, false
+		}
+		sig = fn.Type().(*types.Signature)
+		rt := sig.Recv().Type()
+		if p, ok := rt.(*types.Pointer); ok {
+			rt = p.Elem()
+		}
+		nt, ok := rt.(*types.Named)
+		if !ok {
+			return Val{}, false
+		}
+		pkg := ""
+		if nt.Obj().Pkg() != nil {
+			pkg = nt.Obj().Pkg().Path() + "."
+		}
+		key = pkg + nt.Obj().Name() + "." + sel.Sel.Name
+		// receiver adjustment: the method takes a pointer and the expression is a value, or the reverse: not supported
+		_, recvIsPtr := sig.Recv().Type().(*types.Pointer)
+		_, valIsPtr := t.Underlying().(*types.Pointer)
+		if recvIsPtr != valIsPtr {
+			return Val{}, false
+		}
+	}
+	ct := e.contractFor(key)
+	if ct == nil || !ct.Pure || sig.Results().Len() != 1 {
+		return Val{}, false
+	}
+	args := []Val{recv}
+	for _, a := range n.Args {
+		v := e.evalExpr(a, env)
+		if v.Bad {
+			return Val{}, false
+		}
+		args = append(args, v)
+	}
+	v, ok := e.pureUF(key, sig.Results().At(0).Type(), args, env.st)
+	return v, ok
 }
 
 func basicTypeByName(n string) types.Type {
@@ -1256,6 +1370,65 @@ func (e *Enc) evalSpec(sf *SpecFn, n *ast.CallExpr, env *Env) Val {
 }
 
 // evalModTarget resolves a modifies clause to (object id term, type of modified memory).
+// sliceCells is a pseudo type standing for cap(x) consecutive elements (a modifies range whose size is symbolic).
+type sliceCells struct {
+	elem types.Type
+	n    string
+}
+
+func (s *sliceCells) Underlying() types.Type { return s }
+func (s *sliceCells) String() string         { return "cells of " + s.elem.String() }
+
+// modRange: the cell range [lo, hi) of a modifies target returned by evalModField.
+func (e *Enc) modRange(off string, ft types.Type) (lo, hi string) {
+	if sc, ok := ft.(*sliceCells); ok {
+		return off, e.M.iadd(off, e.M.imul(sc.n, e.M.ilit(slots(sc.elem))))
+	}
+	return off, e.M.iadd(off, e.M.ilit(slots(ft)))
+}
+
+// evalModField: a modifies target of the form x.f where x is a pointer to a struct: the object, the offset of the
+// field inside it and the field's type. Field targets are havocked and checked at field granularity.
+func (e *Enc) evalModField(c Clause, env *Env) (obj, off string, ft types.Type, ok bool) {
+	if ix, isIx := c.Expr.(*ast.IndexExpr); isIx {
+		// x[*] for a slice x: the cells of its backing array from its first element up to its capacity
+		a := e.evalExpr(ix.X, env)
+		if a.Bad || a.T == nil || len(a.L) != 4 {
+			return "", "", nil, false
+		}
+		sl, isSlice := a.T.Underlying().(*types.Slice)
+		if !isSlice {
+			return "", "", nil, false
+		}
+		return a.L[0], a.L[1], &sliceCells{elem: sl.Elem(), n: a.L[3]}, true
+	}
+	n, isSel := c.Expr.(*ast.SelectorExpr)
+	if !isSel {
+		return "", "", nil, false
+	}
+	a := e.evalExpr(n.X, env)
+	if a.Bad || a.T == nil || len(a.L) != 2 {
+		return "", "", nil, false
+	}
+	if _, isPtr := a.T.Underlying().(*types.Pointer); !isPtr {
+		return "", "", nil, false
+	}
+	t := derefType(a.T)
+	if t == nil {
+		return "", "", nil, false
+	}
+	st, isStruct := t.Underlying().(*types.Struct)
+	if !isStruct {
+		return "", "", nil, false
+	}
+	for i := 0; i < st.NumFields(); i++ {
+		if st.Field(i).Name() == n.Sel.Name {
+			return a.L[0], e.M.iadd(a.L[1], e.M.ilit(fieldOffset(st, i))), st.Field(i).Type(), true
+		}
+	}
+	return "", "", nil, false
+}
+
 func (e *Enc) evalModTarget(c Clause, env *Env) (string, types.Type) {
 	switch n := c.Expr.(type) {
 	case *ast.Ident:
